@@ -406,7 +406,10 @@ def judge(run: Run, sc: Path, modules: list, results: dict, refs: dict) -> None:
             done.add(v[1])
         elif v[0] == "ILLEGAL":
             illegal.append(v[1:])
-    illegal = [(traces[x[0]]["hid"], x[1], x[2]) for x in illegal]
+    rank = {"iso": 0, "iso-shifted": 1, "iso-hashseed7": 2, "canon": 3, "cat": 4}
+    # report each defect with the simplest history that shows it
+    illegal = sorted(((traces[x[0]]["hid"], x[1], x[2]) for x in illegal),
+                     key=lambda x: (rank.get(x[0].split(":")[0], 9), x[0], x[1]))
     missing = [t["hid"] for t in traces if t["tid"] not in done]
     if missing:
         raise RuntimeError(f"trace validation did not finish for {missing[:5]}")
